@@ -150,6 +150,13 @@ def dispatch (req : Sexp) : Except String Sexp :=
       | "r" => return S (reprFloat v)
       | "int" => return S (fmtInt v.num)
       | q => throw s!"bad precision {q}"
+    | "numcheck", [x] => do
+      let v ← x.asRat
+      return .list [S (fmtFloat16 v), S (reprFloat v)]
+    | "readcheck", [t] => do
+      match readNum (← t.asAtom).toList with
+      | some v => return .list [.atom "ok", Sexp.ofRat v, Sexp.ofRat (round64 v)]
+      | none => return .list [.atom "fail"]
     | "fmtcomplex", [re, im] => do return S (strComplex (← re.asRat) (← im.asRat))
     | "litvalue", [p, x] => do return Sexp.ofRat (litValue (← p.asNat) (← x.asRat))
     | "readnum", [t] => do
